@@ -39,6 +39,7 @@ static Case gen_case ()
 	c.seti ("auto", *rangeOf<int> (0, 2) == 0) ;
 	c.seti ("upd", *rc::gen::element (1, 2, 3)) ;
 	c.seti ("seekback", *rangeOf<int> (0, 2) == 0) ;
+	c.seti ("rdwr", *rangeOf<int> (0, 3) == 0) ;
 	return c ;
 }
 
@@ -70,7 +71,12 @@ static Result run_case (const Case &c)
 		for (long long p : Q)
 		{	if (p == 0 && acc > 2 && qr.below (2) == 0)
 			{	long long k = (long long) qr.below ((uint64_t) acc) ; long long len = 1 + (long long) qr.below ((uint64_t) (acc - k)) ;
-				if (k + len < acc) { Q2.push_back (SEEK_MARK + k) ; Q2.push_back (len) ; Q2.push_back (0) ; Q2.push_back (SEEK_MARK + acc) ; did_seekback = true ; }
+				if (k + len < acc)
+				{	// overwrite [k, k+len), update in the middle of the file, then - every other time - go on writing without a seek before returning to the end
+					Q2.push_back (SEEK_MARK + k) ; Q2.push_back (len) ; Q2.push_back (0) ;
+					long long more = acc - (k + len) ; if (qr.below (2) == 0 && more > 0) { Q2.push_back (1 + (long long) qr.below ((uint64_t) more)) ; Q2.push_back (0) ; }
+					Q2.push_back (SEEK_MARK + acc) ; did_seekback = true ;
+				}
 			}
 			Q2.push_back (p) ;
 			if (p != 0) acc += p < 0 ? -p : p ;
@@ -82,8 +88,10 @@ static Result run_case (const Case &c)
 	r.dhash = fnv_str (c.gets ("fmt") + "|" + c.gets ("ch") + "|" + std::to_string (N) + "|" + c.gets ("t") + "|" + join_ints (Q) + "|" + c.gets ("auto")) ;
 	r.classes = { std::string ("container:") + major_name (s.format), std::string ("codec:") + cd->name, std::string ("mode:") + (autohdr ? "auto" : "explicit"), std::string ("seekback:") + (did_seekback ? "yes" : "no") } ;
 
-	MemFile m ; std::vector<Snapshot> snaps ; int updates = 0 ;
-	std::string e = write_partitioned (m, s, t, src.p, N, Q, autohdr, &snaps, &updates) ;
+	MemFile m ; std::vector<Snapshot> snaps ; int updates = 0, rdwr_reads = 0 ;
+	bool rdwr = c.geti ("rdwr") != 0 && is_granular (s.format) && !autohdr ;
+	std::string e = write_partitioned (m, s, t, src.p, N, Q, autohdr, &snaps, &updates, rdwr, &rdwr_reads) ;
+	r.classes.push_back (std::string ("rdwr_read_before_update:") + (rdwr_reads ? "yes" : "no")) ;
 	if (!e.empty ()) return fail ("write_failed", e) ;
 	// decode of the finished file (reference for the prefixes)
 	SF_INFO fi ; MemFile fin ; fin.data = m.data ;
